@@ -90,6 +90,12 @@ class CompiledLogicNet(torch.nn.Module):
 
     def _parse_model(self, verbose: bool):
         """Parse the model structure, handling conv, pooling, and linear layers."""
+        # The layers are translated as a plain chain: a container whose forward is not torch.nn.Sequential's own
+        # (a subclass overriding forward, a ModuleList, ...) computes something else.
+        if type(self.model).forward is not torch.nn.Sequential.forward:
+            raise ValueError(
+                f"Cannot compile a {type(self.model).__name__}: its forward is not the plain chain of torch.nn.Sequential."
+            )
         # Find GroupSum layer for num_classes
         for layer in self.model:
             if isinstance(layer, GroupSum):
